@@ -23,6 +23,7 @@ RULE = (
     "of the mesh, continue-after-restore, simu.Save + Load_Simu, mesh.Save + Load_Mesh. The harness keeps deep-copied shadow "
     "snapshots taken at each Save_Iter. Non-trivial = a restore/read of an iteration older than the last with at least one "
     "solve or folder change in between; distinct = sha1 of the history."
+    ' Round 8: Beam members may be dynamic (hyperbolic scheme: the rates belong to the saved state); save_load may target a folder that holds the stored iterations of an earlier run.'
 )
 ASSUMPTIONS = [
     "shadow snapshots are taken through public getters (fields), Result() values and mesh arrays at the time of Save_Iter",
